@@ -10,7 +10,7 @@ from symx import term as T
 from symx.harness import Session
 from symx.scalar import SymReal
 
-from .common import facts, far, simp, tensor_of
+from .common import facts, far, simp, tensor_of, term_of
 
 PID = "C09"
 LEVEL = "other"
@@ -18,15 +18,18 @@ CLAIM = (
     "Bounded symbolic verification of tf-pwa's hand-written error propagation: every arithmetic operator of err_num.NumberError "
     "(either operand uncertain), log/exp/apply and cal_err run on symbolic values and errors and z3 decides that the returned error "
     "squared equals sum_k (df/dx_k sigma_k)^2 with the partials obtained by differentiating the returned value, and that it is "
-    "non-negative; fitfractions.get_frac_grad / cal_fitfractions quotient rule and FitFractions / applications g.V.g error, "
-    "ParamsTrans error = J V J^T, VarsManager.trans_error_matrix = diag(y') V diag(y') for every bound type, and cal_hesse_error on a "
-    "symbolic positive-definite Hessian (errors^2 = diag(H^-1), LAPACK calls replaced by exact small-matrix models) are decided the "
-    "same way. unsat = holds for all values, errors and covariance matrices in the stated domains."
+    "non-negative; ParamsTrans.get_error / get_error_matrix = J V J^T for scalar, vector and list-valued quantities of the parameters "
+    "(Jacobians written by hand, symbolic symmetric covariance, a fixed parameter must not contribute), VarsManager.trans_error_matrix = "
+    "diag(y') V diag(y') for every bound type, and cal_hesse_error on a symbolic positive-definite Hessian (H x returned covariance = "
+    "identity, errors^2 = its diagonal, n = 2, 3; LAPACK calls replaced by exact small-matrix models) are decided the same way. The "
+    "quotient-rule gradients of the fit fractions are decided on the real amplitude models in the C03 harness (fractions.gradient). "
+    "unsat = holds for all values, errors and covariance matrices in the stated domains."
 )
 NOTE = (
     "pow/log/exp are uninterpreted with their derivative rules; integrals and their gradients in the fit-fraction part are opaque "
     "leaves (the amplitude is C03); np.linalg.inv/eig replaced by exact adjugate-based models under the positive-definite precondition "
-    "(this part checks the control flow around LAPACK, not LAPACK); n_par <= 3"
+    "(this part checks the control flow around LAPACK, not LAPACK); the eigenvalue test check_positive_definite answers True under the assumed Sylvester conditions and the "
+    "force_pos_def repair branches for indefinite matrices are outside the claim; n_par <= 3"
 )
 TECHNIQUE = "symbolic execution of err_num / fitfractions / params_trans / variable.trans_error_matrix / applications.cal_hesse_error on a symbolic tensorflow + numpy-proxy substitute; oracle = DAG derivative of the returned value; z3 nlsat per obligation"
 EXPLANATION = CLAIM
@@ -204,15 +207,196 @@ def job_trans_error_matrix(ss, kind):
 
 
 def job_frac_grad(ss):
-    ss.outside("frac_grad", "built with the amplitude-level harness (C03)")
+    ss.outside("frac_grad", "decided on the real amplitude models in the C03 harness (fractions.gradient obligations)")
 
 
 def job_params_trans(ss):
-    ss.outside("params_trans", "pending")
+    """ParamsTrans.get_error / get_error_matrix: sqrt(J V J^T) with the Jacobians written by hand"""
+    import tensorflow as tf
+    from symx import symtf
+    from tf_pwa.params_trans import ParamsTrans
+    from tf_pwa.variable import VarsManager
+    import tf_pwa.params_trans as ptm
+    from symx.npproxy import NumpyProxy
+
+    symtf.STATE.var_leaves = True
+    symtf.reset_state()
+    vm = VarsManager(dtype=tf.float64)
+    for n in ("a", "b", "c", "f"):
+        vm.add_real_var(n, value=1.0)
+    vm.set_fix("f")
+    th = {}
+    for n in ("a", "b", "c", "f"):
+        th[n] = S.real("th_" + n)
+        vm.variables[n].assign(tensor_of(th[n]))
+    S.assume(th["b"] > Fraction(1, 10))
+    V = np.empty((3, 3), dtype=object)
+    for i in range(3):
+        for j in range(i, 3):
+            V[i, j] = V[j, i] = S.real("V_%d%d" % (i, j))
+    Vt = tensor_of(V)
+    old_np, old_print = ptm.__dict__.get("np"), ptm.__dict__.get("print")
+    ptm.np = NumpyProxy()
+    ptm.print = lambda *a, **k: None
+    try:
+        pt = ParamsTrans(vm, Vt)
+        with pt.trans() as p:
+            a, b, c, f = p["a"], p["b"], p["c"], p["f"]
+            ys = {
+                "poly": a * b + c * f,
+                "ratio": a / b,
+                "norm": tf.sqrt(a * a + b * b + 1.0),
+                "mixed": tf.exp(c) * a - b * b * b,
+            }
+            yv = tf.stack([a * b, a + c * c])
+        A, B, C, Fv = th["a"], th["b"], th["c"], th["f"]
+        one = SymReal(T.ONE)
+        zero = SymReal(T.ZERO)
+        nrm = (A * A + B * B + 1).sqrt()
+        ec = SymReal(T.uf("exp", C.t))
+        J = {
+            "poly": [B, A, Fv],
+            "ratio": [one / B, -(A / (B * B)), zero],
+            "norm": [A / nrm, B / nrm, zero],
+            "mixed": [ec, -(3 * B * B), ec * A],
+        }
+        Jv = [[B, A, zero], [one, zero, 2 * C]]
+
+        def quad(j1, j2):
+            acc = SymReal(T.ZERO)
+            for i in range(3):
+                for k in range(3):
+                    acc = acc + j1[i] * V[i, k] * j2[k]
+            return acc
+
+        pay = lambda m: dict(kind="params_trans", model={k: float(v) for k, v in m.items() if not k.startswith(("sqrt#", "uf_", "V!"))})
+        names = list(vm.trainable_vars)
+        ss.concrete("params_trans.free_order", names == ["a", "b", "c"], key="params_trans", payload=dict(kind="params_trans_order"), describe="free parameters a, b, c in this order; f fixed (its derivative must not enter)")
+        for k, y in ys.items():
+            var2 = quad(J[k], J[k])
+            S.assume(var2 > 0)
+            err = pt.get_error(y, keep=True)
+            e = symtf.resolve_bindings(term_of(err.arr.reshape(-1)[0]))
+            F = facts()
+            e = simp(F, e)
+            ss.prove("params_trans.get_error[%s]" % k, F, far(T.mul(e, e), symtf.resolve_bindings(var2.t), 0), key="params_trans.get_error", payload=pay, timeout=90, ackermann=False,
+                     describe="get_error(y)^2 = J V J^T with J the hand-written Jacobian of y with respect to the free parameters")
+            ss.prove("params_trans.get_error_nonneg[%s]" % k, F, T.lt(e, T.ZERO), key="params_trans.get_error", payload=pay, timeout=60, ackermann=False)
+        ev = pt.get_error(yv, keep=True)
+        for r in range(2):
+            var2 = quad(Jv[r], Jv[r])
+            S.assume(var2 > 0)
+        F = facts()
+        for r in range(2):
+            e = simp(F, symtf.resolve_bindings(term_of(ev.arr.reshape(-1)[r])))
+            ss.prove("params_trans.get_error_vector[%d]" % r, F, far(T.mul(e, e), symtf.resolve_bindings(quad(Jv[r], Jv[r]).t), 0), key="params_trans.get_error", payload=pay, timeout=90, ackermann=False,
+                     describe="vector-valued quantity: component errors are sqrt(diag(J V J^T))")
+        M = pt.get_error_matrix([ys["poly"], ys["ratio"]], keep=True)
+        M = np.asarray(getattr(M, "arr", M), dtype=object)
+        Js = [J["poly"], J["ratio"]]
+        for r in range(2):
+            for q in range(2):
+                m = M[r, q]
+                if hasattr(m, "arr"):
+                    m = m.arr.reshape(-1)[0]
+                mt = symtf.resolve_bindings(m.t if isinstance(m, SymReal) else term_of(m))
+                ss.prove("params_trans.get_error_matrix[%d,%d]" % (r, q), F, far(simp(F, mt), symtf.resolve_bindings(quad(Js[r], Js[q]).t), 0), key="params_trans.get_error_matrix", payload=pay, timeout=90, ackermann=False,
+                         describe="get_error_matrix = J V J^T")
+        e0 = simp(F, symtf.resolve_bindings(term_of(pt.get_error(ys["poly"], keep=True).arr.reshape(-1)[0])))
+        ss.mutant("params_trans.mutant_no_covariance", F, far(T.mul(e0, e0), (B * B * V[0, 0] + A * A * V[1, 1] + Fv * Fv * V[2, 2]).t, 0))
+    finally:
+        for k_, old in (("np", old_np), ("print", old_print)):
+            if old is None:
+                ptm.__dict__.pop(k_, None)
+            else:
+                ptm.__dict__[k_] = old
+
+
+def _sym_inv(h):
+    """inverse of a small symbolic matrix by the adjugate formula (stands for numpy.linalg.inv in the module under analysis)"""
+    h = np.asarray(getattr(h, "arr", h), dtype=object)
+    n = h.shape[0]
+    if n == 2:
+        det = h[0, 0] * h[1, 1] - h[0, 1] * h[1, 0]
+        out = np.empty((2, 2), dtype=object)
+        out[0, 0], out[0, 1], out[1, 0], out[1, 1] = h[1, 1] / det, -h[0, 1] / det, -h[1, 0] / det, h[0, 0] / det
+        return out
+    if n == 3:
+        c = lambda i, j: h[(i + 1) % 3, (j + 1) % 3] * h[(i + 2) % 3, (j + 2) % 3] - h[(i + 1) % 3, (j + 2) % 3] * h[(i + 2) % 3, (j + 1) % 3]
+        det = h[0, 0] * c(0, 0) + h[0, 1] * c(0, 1) + h[0, 2] * c(0, 2)
+        out = np.empty((3, 3), dtype=object)
+        for i in range(3):
+            for j in range(3):
+                out[i, j] = c(j, i) / det
+        return out
+    raise ValueError(n)
 
 
 def job_hesse(ss, n):
-    ss.outside("hesse", "pending")
+    """cal_hesse_error: errors = sqrt(diag(H^-1)) for a positive definite Hessian returned by the likelihood"""
+    import tensorflow as tf
+    import tf_pwa.applications as app
+    from symx.npproxy import NumpyProxy
+
+    H = np.empty((n, n), dtype=object)
+    for i in range(n):
+        for j in range(i, n):
+            H[i, j] = H[j, i] = S.real("H_%d%d" % (i, j))
+    # positive definite: leading principal minors > 0 (Sylvester)
+    S.assume(H[0, 0] > Fraction(1, 100))
+    d2 = H[0, 0] * H[1, 1] - H[0, 1] * H[1, 0]
+    S.assume(d2 > Fraction(1, 100))
+    if n == 3:
+        d3 = H[0, 0] * (H[1, 1] * H[2, 2] - H[1, 2] * H[2, 1]) - H[0, 1] * (H[1, 0] * H[2, 2] - H[1, 2] * H[2, 0]) + H[0, 2] * (H[1, 0] * H[2, 1] - H[1, 1] * H[2, 0])
+        S.assume(d3 > Fraction(1, 100))
+
+    class FCN:
+        def nll_grad_hessian(self, params):
+            return tensor_of(S.real("nll")), tensor_of(np.array([S.real("g%d" % i) for i in range(n)], dtype=object)), tensor_of(H)
+
+    def sqrt(x):
+        a = np.asarray(x, dtype=object)
+        out = np.empty(a.shape, dtype=object)
+        for i in np.ndindex(*a.shape):
+            out[i] = a[i].sqrt() if isinstance(a[i], SymReal) else float(a[i]) ** 0.5
+        return out
+
+    def fabs(x):
+        a = np.asarray(x, dtype=object)
+        out = np.empty(a.shape, dtype=object)
+        for i in np.ndindex(*a.shape):
+            out[i] = abs(a[i])
+        return out
+
+    saved = {k: app.__dict__.get(k) for k in ("np", "check_positive_definite", "print")}
+    app.np = NumpyProxy(linalg={"inv": _sym_inv, "pinv": _sym_inv}, sqrt=sqrt, fabs=fabs)
+    # the eigenvalue test of a positive definite matrix (assumed: Sylvester's criterion above) answers True
+    app.check_positive_definite = lambda m: True
+    app.print = lambda *a, **k: None
+    try:
+        errs, inv_he = app.cal_hesse_error(FCN(), {}, save_npy=False)
+    finally:
+        for k, v in saved.items():
+            if v is None:
+                app.__dict__.pop(k, None)
+            else:
+                app.__dict__[k] = v
+    inv_he = np.asarray(inv_he, dtype=object)
+    F = facts()
+    pay = lambda m: dict(kind="hesse", n=n, model={k: float(v) for k, v in m.items() if k.startswith("H_")})
+    ss.witness("hesse.reach[%d]" % n, F)
+    for i in range(n):
+        for j in range(n):
+            acc = SymReal(T.ZERO)
+            for k in range(n):
+                acc = acc + H[i, k] * inv_he[k, j]
+            ss.prove("hesse.inverse[%d,%d,%d]" % (n, i, j), F, far(acc.t, T.ONE if i == j else T.ZERO, 0), key="hesse.inverse", payload=pay, timeout=90, describe="H x (returned covariance) = identity")
+        e = errs[i]
+        et = simp(F, e.t if isinstance(e, SymReal) else term_of(e))
+        ss.prove("hesse.error[%d,%d]" % (n, i), F, far(T.mul(et, et), inv_he[i, i].t, 0), key="hesse.error", payload=pay, timeout=90, describe="reported uncertainty squared = diagonal element of the inverse Hessian")
+        ss.prove("hesse.error_nonneg[%d,%d]" % (n, i), F, T.lt(et, T.ZERO), key="hesse.error", payload=pay, timeout=60)
+        ss.prove("hesse.diag_positive[%d,%d]" % (n, i), F, T.le(inv_he[i, i].t, T.ZERO), key="hesse.error", payload=pay, timeout=90, describe="diagonal of the inverse of a positive definite matrix is positive (so |.| is the identity)")
+    ss.mutant("hesse.mutant[%d]" % n, F, far(T.mul(simp(F, errs[0].t), simp(F, errs[0].t)), T.div(T.ONE, H[0, 0].t), 0))
 
 
 def run_job(job):
